@@ -43,6 +43,12 @@ type recorder struct {
 	ctl   *ctl
 	// fine-grained mode (instrumented worker): instances that are inside a schedule call of the logging wrapper
 	inCall map[int]bool
+	// runaway guard: a pool over a finite profile performs a bounded number of operations; far beyond that bound the run
+	// is cut (observation res=runaway) instead of spinning until the time limit
+	shots     int // Shoot calls so far
+	maxEvs    int
+	onRunaway func()
+	runaway   bool
 }
 
 func newRecorder() *recorder {
@@ -70,7 +76,13 @@ func (r *recorder) lid(t int) int {
 	return l
 }
 
-func (r *recorder) logf(format string, a ...any) { r.evs = append(r.evs, fmt.Sprintf(format, a...)) }
+func (r *recorder) logf(format string, a ...any) {
+	r.evs = append(r.evs, fmt.Sprintf(format, a...))
+	if r.maxEvs > 0 && len(r.evs) > r.maxEvs && !r.runaway && r.onRunaway != nil {
+		r.runaway = true
+		go r.onRunaway()
+	}
+}
 
 // acquired registers a freshly acquired ammo object. Call with mu held.
 func (r *recorder) acquired(t int, a any) int {
@@ -156,6 +168,47 @@ type ctl struct {
 	partial int    // decisions taken while a live instance was not parked
 	fine    bool             // park also at the scheduling points inside the schedule's Next / Left
 	pending map[int][]string // fine: the shared-state accesses the parked instance performs when it goes on
+	// sctl: the goroutine that starts the instances (startInstances) is a controlled participant too: it parks before
+	// every Next() of the startup schedule, so instances can run, finish, run out of ammo … before the others exist
+	sctl        bool
+	launched    int        // successful Next() calls of the startup schedule = instances launched
+	starterDone bool       // the startup schedule is exhausted, or the starter was let go after the start was cancelled
+	cancelKnown bool       // the engine cancels the instance start (shared profile finished / out of ammo seen)
+	sawEmpty    bool       // an out-of-ammo was logged since the last decision (its start cancel is asynchronous)
+	finished    func() int // metrics.InstanceFinish
+}
+
+const starterTid = -1
+
+// gateStarter parks the goroutine that starts the instances until the controller lets it draw the next startup token.
+func (r *recorder) gateStarter() {
+	c := r.ctl
+	if c == nil || !c.sctl {
+		return
+	}
+	r.mu.Lock()
+	if c.stopped {
+		r.mu.Unlock()
+		return
+	}
+	ch := make(chan struct{})
+	c.parked[starterTid] = ch
+	r.mu.Unlock()
+	c.poke()
+	select {
+	case <-ch:
+	case <-c.stop:
+	}
+}
+
+// startCancelled: the harness has seen what makes the engine cancel the instance start. Call with mu held.
+func (r *recorder) startCancelled(empty bool) {
+	if c := r.ctl; c != nil && c.sctl {
+		c.cancelKnown = true
+		if empty {
+			c.sawEmpty = true
+		}
+	}
 }
 
 // preempt: at decision number step, switch to the k-th OTHER parked instance.
@@ -312,8 +365,24 @@ func (c *ctl) loop() {
 			if first && c.first > want {
 				want = c.first
 			}
+			if c.sctl {
+				// every launched instance that has not left Run parks sooner or later; so does the starter until the
+				// startup schedule is exhausted or the start is cancelled
+				want = c.launched - c.finished()
+				if !c.starterDone {
+					if _, here := c.parked[starterTid]; here || !c.cancelKnown {
+						want++
+					}
+				}
+			}
+			grace := c.sctl && c.sawEmpty
+			c.sawEmpty = false
 			stopped := c.stopped
 			r.mu.Unlock()
+			if grace {
+				time.Sleep(300 * time.Microsecond) // out of ammo: the pool cancels the start asynchronously
+				continue
+			}
 			if stopped {
 				return
 			}
@@ -347,6 +416,9 @@ func (c *ctl) loop() {
 		ch := c.parked[t]
 		delete(c.parked, t)
 		c.last = t
+		if t == starterTid && c.cancelKnown {
+			c.starterDone = true // it starts one more instance and then finds the start cancelled
+		}
 		if acc, ok := c.pending[t]; ok {
 			for _, a := range acc {
 				r.logf("t%d:%s", r.lid(t), a)
